@@ -246,6 +246,13 @@ def webanno_jobs(tier, seed):
         jobs.append(gen_job(f'webanno_core_s{style}', 'core', 2, depth=1, size='v', style=style, reads=['webanno'], **big))
     # string values that look like IRIs (exported as nodes), with backslashes and control characters
     jobs.append(gen_job('webanno_iri', 'core', 2, depth=1, size='i', style=0, reads=['webanno'], **big))
+    # the special-purpose preludes (relative complex selectors, nested composite targets, duplicate data references,
+    # identifiers that look like temporary ones, two resources with equal offsets)
+    jobs += [gen_job('webanno_rel_p13', 'complexrel', 13, depth=1, style=seed % 5, reads=['webanno'], sample_mod=6 if quick else 1, MaxAnns=10, MaxRes=2, MaxData=4),
+             gen_job('webanno_p17', 'remove', 17, depth=0, style=(seed + 1) % 5, reads=['webanno'], MaxAnns=12, MaxRes=2),
+             gen_job('webanno_p14', 'remove', 14, depth=0, style=(seed + 2) % 5, reads=['webanno'], MaxAnns=10, MaxRes=2, MaxData=4),
+             gen_job('webanno_p15', 'tempish', 15, depth=0, style=(seed + 3) % 5, reads=['webanno'], MaxAnns=10, MaxRes=4, MaxData=6, MaxSets=4, MaxKeys=4),
+             gen_job('webanno_p16', 'remove', 16, depth=0, style=(seed + 4) % 5, reads=['webanno'], **big)]
     s = seed % 5
     jobs += [gen_job('webanno_complex_p2', 'complex', 2, depth=2, style=s, reads=['webanno'], **big),
              gen_job('webanno_p6', 'remove', 6, depth=1, style=(s + 1) % 5, reads=['webanno'], **big),
@@ -285,6 +292,15 @@ def query_jobs(tier, seed):
             gen_job('tquery_p10', 'remove', 10, depth=0, size='v', style=3, reads=['textqueries'], **big),
             gen_job('tquery_p11', 'remove', 11, depth=0, style=0, reads=['textqueries'], MaxAnns=12, MaxRes=3, MaxData=10, MaxSets=2, MaxKeys=4),
             gen_job('tquery_p6', 'remove', 6, depth=0, style=3, reads=['textqueries'], **big),
+            # the special-purpose preludes
+            # (14: an annotation that lists a data item twice yields it twice in DATA results - whether that is a duplicate is not
+            #  for this check to say, so only the TEXT / RESOURCE / KEY menus are asked there)
+            gen_job('query_p14', 'remove', 14, depth=0, style=0, reads=['textqueries'], **big),
+            gen_job('query_p15', 'tempish', 15, depth=0, style=2, reads=['queries', 'textqueries'], MaxAnns=10, MaxRes=4, MaxData=6, MaxSets=4, MaxKeys=4),
+            # (17 has annotations with several text selections: what TEXT and RELATION constraints mean for those is not documented,
+            #  so only the TEXT / RESOURCE / KEY result menus are asked there)
+            gen_job('query_p17', 'remove', 17, depth=0, style=3, reads=['textqueries'], MaxAnns=12, MaxRes=2),
+            gen_job('query_p19', 'remove', 19, depth=0, style=0, reads=['queries', 'textqueries'], **big),
             gen_job('tquery_c2', 'complex', 2, depth=1 if quick else 2, style=2, reads=['textqueries'], **big)]
     if not quick:
         jobs.append(gen_job('query_v5', 'all', 5, depth=1, size='v', style=0, reads=['queries'], **big))
